@@ -85,6 +85,7 @@ def main(argv=None):
             "distinct_outcomes": len(res.outcomes),
             "deviation_bound_completed": res.depth_completed,
             "deviation_bound_requested": check.bound(),
+            "search_closed_before_bound": bool(res.closed),
             "levels": res.levels,
             "caps_hit": res.caps,
             "exhaustive": bool(res.exhaustive and not res.caps),
